@@ -15,7 +15,8 @@ type HostSpec struct {
 	// Custom dice: a regex operator TOK(\d+) whose handler returns its number.
 	Custom     bool   `json:",omitempty"`
 	CustomTok  string `json:",omitempty"`
-	// HandlerPlan: behaviour of successive handler calls: 'v' value, 'e' error, 'n' nil value, 'r' re-entrant RunExpr then value.
+	// HandlerPlan: behaviour of successive handler calls: 'v' value, 'e' error, 'n' nil value, 'r' re-entrant RunExpr then value,
+	// 'p' the callback panics, 'd' the callback rolls a die on the evaluating context's generator.
 	HandlerPlan string `json:",omitempty"`
 	// Inert extensions (must change nothing).
 	NeverRegex   bool `json:",omitempty"` // regex customs that never match
@@ -125,6 +126,15 @@ func (h *Host) Install(vm *ds.Context) {
 			case 'r':
 				h.Fired["reentrant_call"]++
 				_, _ = ctx.RunExpr("1+1", false)
+			case 'p':
+				// the callback itself crashes: the library turns that into an evaluation error
+				h.Fired["callback_panic"]++
+				var zero int
+				_ = 1 / zero
+			case 'd':
+				// the callback rolls on the evaluating context's own generator
+				h.Fired["callback_rolls"]++
+				n += int(ds.Roll(ctx.RandSrc, 6, 0))
 			}
 			// groups may be scribbled on by a handler: the VM must have passed a copy
 			for i := range groups {
